@@ -16,7 +16,7 @@ pub fn info() -> PropInfo {
     PropInfo {
         id: "C17",
         level: "exploration",
-        rule: "projects with one run-bearing source at depth 0..3 below the base directory (plus a sibling that includes it, so that second-pass runs are covered) x {process cwd == base, cwd inside base, cwd unrelated ('/'), base given relative to the cwd} x {library entry in-process, CLI} x {default shell, overriding recorder script printing argc / each argument / pwd / TXTPP_FILE, with extra configured arguments} x {single-line, multi-line commands with empty and padded continuation lines} x exit codes {0, 1, 2, 255, killed by signal}. Oracle: the working directory reported by the command equals the canonical directory of its source; the shell receives exactly [configured args..., command] with command = argument lines joined by single spaces; TXTPP_FILE designates the source (absolute path, or resolving to it from the base directory or from the command's cwd); non-zero / signal exit fails the build; the binary refuses to start with TXTPP_FILE set and a command invoking txtpp fails. CLI sample under strace: the execve issued by txtpp has that argv, cwd and environment. Non-trivial = source below the base directory or base != cwd or non-default shell or multi-line command; distinct = distinct configurations.",
+        rule: "projects with one run-bearing source at depth 0..3 below the base directory (plus a sibling that includes it, so that second-pass runs are covered) x {process cwd == base, cwd inside base, cwd unrelated ('/'), base given relative to the cwd} x {library entry in-process, CLI} x {default shell, overriding recorder script printing argc / each argument / pwd / TXTPP_FILE, with extra configured arguments} x {single-line, multi-line commands with empty and padded continuation lines} x exit codes {0, 1, 2, 255, killed by signal}. Oracle: the working directory reported by the command equals the canonical directory of its source; the shell receives exactly [configured args..., command] with command = argument lines joined by single spaces; TXTPP_FILE designates the source (absolute path, or resolving to it from the base directory or from the command's cwd); non-zero / signal exit fails the build; the binary refuses to start with TXTPP_FILE set and a command invoking txtpp fails. CLI sample under strace: the execve issued by txtpp has that argv, cwd and environment. Non-trivial = source below the base directory or base != cwd or non-default shell or multi-line command; distinct = distinct configurations. Later additions: sources outside the base directory in a sibling whose name extends the base's name; directory names that are not valid UTF-8 (working directory as hex dump, recursion guard); commands with up to 200 KB on stderr around / interleaved with stdout; CLI shell-option spellings incl. verify -s, unresolvable configured shells, a working-directory entry named sh; the includer named alone (source reached as a dependency); three ordered sources with two identical commands each; SHELL set to /bin/false etc.",
         assumptions: &["TXTPP_FILE: README says absolute path, code passes the base-relative rendering: both accepted (DESIGN §4.3)", "Linux, /bin/sh"],
         floor: (150, 2000),
         shards: (16, 16),
